@@ -100,25 +100,9 @@ func runC19(c *Ctx) {
 		c.obMustUnder("recovery closes", f, []string{lClose}, `builtin:recover() != nil`)
 	}
 
-	R.Rule("R-linelimit-layer", "E4 value flow", "init() builds textproto's reader over a lineLimitReader on the current connection with LineLimit = Server.MaxLineLength", 4)
-	if f := c.A.Func("(*Conn).init"); f != nil {
-		m := s.Must(f)
-		R.Ob("(*Conn).init/limiter over the current conn", c.P.Pos(f.Pos()), m["st:lineLimitReader.R=@Conn.conn"], "lineLimitReader.R is not certainly the current connection; events: "+fmt.Sprint(m.list()))
-		R.Ob("(*Conn).init/limit from MaxLineLength", c.P.Pos(f.Pos()), m["st:lineLimitReader.LineLimit=@Server.MaxLineLength"], "LineLimit is not certainly initialised from Server.MaxLineLength")
-		R.Ob("(*Conn).init/limiter stored", c.P.Pos(f.Pos()), m["st:Conn.lineLimitReader"], "the limiter is not stored in the connection")
-		// the reader handed to textproto reads through the limiter: every layer between textproto and the socket is
-		// traced back (struct fields assigned in init, io.TeeReader, package reader types wrapping a reader) and the
-		// chain has to end in the limiter stored in the connection
-		okReader, whyReader := false, "no textproto.NewConn call in init()"
-		for _, nc := range s.Find(f, "call:textproto.NewConn") {
-			okReader, whyReader = readerChainEndsInLimiter(f, callCommon(nc).Args[0])
-			if !okReader {
-				break
-			}
-		}
-		R.Ob("(*Conn).init/textproto reads through the limiter", c.P.Pos(f.Pos()), okReader, "the reader given to textproto.NewConn does not read through the line limiter: "+whyReader)
-	}
+	ruleLineLimitLayer(c)
 
+	ruleTypeAssertGuarded(c)
 	ruleLineLimitCounting(c)
 	ruleLimiterBypass(c)
 	ruleNoPartialLine(c)
@@ -882,4 +866,87 @@ func ruleProtocolErrorSites(c *Ctx) {
 		}
 	}
 	R.Ob("protocolError/call sites", "-", n >= 3, fmt.Sprintf("%d call sites", n))
+}
+
+// ruleLineLimitLayer (C19, C05): the limiter stored in the connection IS the limiter textproto reads through. C19 needs
+// it for the bound; C05 needs it because handleBdat lifts the line limit through that field for the duration of a
+// chunk — a second limiter in the chain (say, one added around a debug tee) would keep refusing long LF-free runs of
+// a binary chunk.
+func ruleLineLimitLayer(c *Ctx) {
+	R := c.R
+	_, s := c.Std()
+	R.Rule("R-linelimit-layer", "E4 value flow", "init() builds textproto's reader over a lineLimitReader on the current connection with LineLimit = Server.MaxLineLength", 4)
+	if f := c.A.Func("(*Conn).init"); f != nil {
+		m := s.Must(f)
+		R.Ob("(*Conn).init/limiter over the current conn", c.P.Pos(f.Pos()), m["st:lineLimitReader.R=@Conn.conn"], "lineLimitReader.R is not certainly the current connection; events: "+fmt.Sprint(m.list()))
+		R.Ob("(*Conn).init/limit from MaxLineLength", c.P.Pos(f.Pos()), m["st:lineLimitReader.LineLimit=@Server.MaxLineLength"], "LineLimit is not certainly initialised from Server.MaxLineLength")
+		R.Ob("(*Conn).init/limiter stored", c.P.Pos(f.Pos()), m["st:Conn.lineLimitReader"], "the limiter is not stored in the connection")
+		// the reader handed to textproto reads through the limiter: every layer between textproto and the socket is
+		// traced back (struct fields assigned in init, io.TeeReader, package reader types wrapping a reader) and the
+		// chain has to end in the limiter stored in the connection
+		okReader, whyReader := false, "no textproto.NewConn call in init()"
+		for _, nc := range s.Find(f, "call:textproto.NewConn") {
+			okReader, whyReader = readerChainEndsInLimiter(f, callCommon(nc).Args[0])
+			if !okReader {
+				break
+			}
+		}
+		R.Ob("(*Conn).init/textproto reads through the limiter", c.P.Pos(f.Pos()), okReader, "the reader given to textproto.NewConn does not read through the line limiter: "+whyReader)
+	}
+}
+
+// ruleTypeAssertGuarded (C19, C09): on the server side a value obtained from a type assertion is used (method call,
+// field access) only where the assertion is known to have held, and there is no single-result assertion on a value
+// that is not known to have that type. An optional interface of the backend's session (AuthSession, LMTPSession) that
+// is called without the comma-ok test turns "the backend does not support this" into a nil-interface panic: 421 and
+// a closed connection for a command the property wants answered.
+func ruleTypeAssertGuarded(c *Ctx) {
+	R := c.R
+	R.Rule("R-typeassert-guarded", "E3 must-facts", "server code uses the result of a type assertion only on the edge where the assertion held; no panicking (single-result) assertion on connection- or backend-supplied values", 8)
+	n := 0
+	for _, f := range c.P.AllFuncs() {
+		fn := funcName(f)
+		if !inSmtp(f) || !(strings.HasPrefix(fn, "(*Conn).") || strings.HasPrefix(fn, "(*Server).") || strings.HasPrefix(fn, "(*statusCollector).") || fn == "dataErrorToStatus") {
+			continue
+		}
+		ff := c.F.Analyze(f)
+		allInstrs(f, func(in ssa.Instruction) {
+			ta, ok := in.(*ssa.TypeAssert)
+			if !ok {
+				return
+			}
+			n++
+			if !ta.CommaOk {
+				R.Ob(c.siteKey(in, "no panicking type assertion"), c.P.InstrPos(in), false, "single-result assertion "+describe(ta.X)+".("+typeShort(ta.AssertedType)+") panics when the value has another type")
+				return
+			}
+			okAtom := "assert[" + typeShort(ta.AssertedType) + "](" + describe(ta.X) + ")#1 == true"
+			for _, ref := range *ta.Referrers() {
+				ex, isEx := ref.(*ssa.Extract)
+				if !isEx || ex.Index != 0 {
+					continue
+				}
+				for _, use := range *ex.Referrers() {
+					deref := false
+					if cc := callCommon(use); cc != nil && cc.IsInvoke() && cc.Value == ssa.Value(ex) {
+						deref = true
+					}
+					if cc := callCommon(use); cc != nil && !cc.IsInvoke() && len(cc.Args) > 0 && cc.Args[0] == ssa.Value(ex) && cc.Signature().Recv() != nil {
+						deref = true // method call on a concrete pointer type
+					}
+					if fa, isFA := use.(*ssa.FieldAddr); isFA && fa.X == ssa.Value(ex) {
+						deref = true
+					}
+					if u, isU := use.(*ssa.UnOp); isU && u.Op == token.MUL && u.X == ssa.Value(ex) {
+						deref = true
+					}
+					if !deref {
+						continue
+					}
+					R.Ob(c.siteKey(use, "asserted value used only where the assertion held"), c.P.InstrPos(use), ff.At(use)[okAtom], fmt.Sprintf("%s uses the result of %s.(%s) without the comma-ok test having succeeded (facts: %v): for a value of another type this is a nil dereference — a panic, 421 and a closed connection", fn, describe(ta.X), typeShort(ta.AssertedType), ff.At(use).list()))
+				}
+			}
+		})
+	}
+	R.Ob("server/type assertions found", "-", n >= 6, fmt.Sprintf("%d type assertions found on the server side", n))
 }
